@@ -106,6 +106,7 @@ def run_config(pid, cfg, tier, seed, timeout_ms, max_paths):
     res['canaries'] = env.canary_seen
     res['functions'] = trace.functions()
     res['notes'] = env.notes
+    res['claim_ms'] = {k: round(v, 1) for k, v in sorted(env.claim_ms.items(), key=lambda kv: -kv[1])[:6]}
     res['wall_s'] = round(time.time() - t0, 3)
     return res
 
@@ -310,6 +311,9 @@ def main(argv=None):
     print(f"[{pid}] tier={tier} configs={len(results)} paths={st['paths']} obligations={st['obligations']} "
           f"discharged={st['discharged']} refuted={st['refuted']} inconclusive={st['inconclusive']} "
           f"queries={st['queries']} solver_s={st['solver_s']:.1f} wall_s={wall}")
+    if os.environ.get('VERIF_VERBOSE'):
+        for r in sorted(results, key=lambda r: -(r.get('wall_s') or 0))[:8]:
+            print(f"  slow: {r.get('wall_s')}s paths={r.get('stats', {}).get('paths')} {r['label']} {r.get('claim_ms')}")
     for k, (e, n) in sorted(known_hits.items()):
         print(f"KNOWN-FINDING: property={pid} {e['what']} [{k}; {n} failing paths]")
     for v in violations:
